@@ -132,6 +132,7 @@ typedef struct {
     int told, untold_at_quiescence; /* completion made known through a return code (HANDSHAKE_COMPLETE or APP_DATA) / not known although complete when the endpoint went idle */
     int hsc_send, hsc_recv; /* how many times matrixSslSentData / the receive path returned MATRIXSSL_HANDSHAKE_COMPLETE */
     int reqclose_on_send;   /* send-side outcome: kept as a flag because its position relative to receive-side events is decided by the caller's own call order */
+    char left[240];         /* state the connection leaves behind (see left_behind) */
 } trace_t;
 typedef struct { int off, len; unsigned char b[1200]; } splice_t;   /* a record the key-holding peer puts in front of raw output offset `off` */
 typedef struct {
@@ -244,13 +245,18 @@ static void drv_feed(drv_t *d, const unsigned char *b, int n, int coalesce)
         drv_policy(d);
     }
 }
-static int drv_open(drv_t *d, const scn_t *s, int role, sslSessionId_t *sid, trace_t *t)
+static mx_cfg scn_cfg(const scn_t *s)
 {
     mx_cfg c = { .ver = s->ver, .suite = s->suite, .clientAuth = s->clientAuth, .useTicket = s->ticket, .noCallback = 1 };
     if (s->clientAuth) c.strictCb = 1;
     if (s->early) c.earlyData = 16384;
     if (s->bad == BAD_CA) c.ckeys = mx_keys.srv_psk;     /* a key set without any CA */
     if (s->bad == BAD_NAME) c.expectedName = "wrong.example"; else if (mx_suite_by_id(s->suite)->auth != MX_AUTH_PSK && s->bad != BAD_CA) c.expectedName = "localhost";
+    return c;
+}
+static int drv_open(drv_t *d, const scn_t *s, int role, sslSessionId_t *sid, trace_t *t)
+{
+    mx_cfg c = scn_cfg(s);
     memset(d, 0, sizeof *d); d->t = t; d->role = role; d->s = s; d->hs_end = INT_MAX; memset(t, 0, sizeof *t);
     int rc;
     if (s->hrr) {   /* as mx_new_server / mx_new_client, plus key-exchange groups: the client's only share is for x25519, the server has secp256r1 alone */
@@ -367,17 +373,13 @@ static const char *chunk_class(const alone_arg *a)
                        case CH_STRADDLE: return "record-straddling"; case CH_COALESCE: return "coalesced"; case CH_INSCUT_A: case CH_INSCUT_B: return "cut-at-spliced-record"; case CH_INSTRICKLE: return "trickle-behind-spliced-record";
                        default: return "random"; }
 }
-static void alone_run(void *a_)
+/* feed one endpoint its recorded input stream under the partition of `a`, never earlier than causally possible */
+static void drive(drv_t *Dp, const alone_arg *a)
 {
-    alone_arg *a = a_; const scn_t *s = a->s; sslSessionId_t *sid; matrixSslNewSessionId(&sid, NULL);
-    static drv_t D; trace_t *t = &SH->alone; int dirIn = a->role == MX_SERVER ? 0 : 1;
+#define D (*Dp)
+    trace_t *t = D.t; int dirIn = a->role == MX_SERVER ? 0 : 1;
     const unsigned char *in = SH->stream[dirIn]; int inlen = SH->len[dirIn]; const int *need = SH->need[dirIn];
     const grp_t *ins = SH->ins[dirIn]; int nins = SH->nins[dirIn];
-    if (s->resumed) prime(s, sid);
-    /* keep object creation order identical to the recording run (server first) so that entropy draws line up */
-    static drv_t other; static trace_t ot;
-    if (a->role == MX_SERVER) { if (drv_open(&D, s, MX_SERVER, NULL, t) < 0) return; }
-    else { if (drv_open(&other, s, MX_SERVER, NULL, &ot) < 0) return; if (drv_open(&D, s, MX_CLIENT, sid, t) < 0) return; }
     D.partial = a->partial; vf_rng_init(&D.rng, vf_seed, a->arg * 7 + a->kind); vf_rng g; vf_rng_init(&g, vf_seed * 3 + 1, a->arg * 13 + a->kind);
     /* record table of the input stream */
     static int rs[4096]; int nr = 0; { int o = 0; mx_rec r; while (nr < 4095 && mx_rec_at(in, inlen, o, 0, &r)) { rs[nr++] = o; o += r.hdr + r.len; } rs[nr] = o; }
@@ -420,6 +422,70 @@ static void alone_run(void *a_)
         drv_feed(&D, in + pos, n, coal); pos += n;
     }
     drv_drain(&D);
+#undef D
+}
+
+/* ---- the state a connection leaves behind ----
+ * What the NEXT connection finds is part of the outcome: the client's sslSessionId_t (filled by the library on completion, on NewSessionTicket,
+ * cleared on errors) and the server's session-cache entry.  After the stream has been consumed both sessions are deleted and the trace gets
+ *   sid=   a digest of the client's sslSessionId_t: idLen, id, masterSecret, cipherId, ticket state / length / bytes / lifetime, every TLS 1.3 PSK
+ *          (key, identity, resumption flag, cipher, lifetime, age_add, max_early_data)                                        [client re-runs]
+ *   ch=    length and digest of the first flight a NEW client session created with that sslSessionId_t emits, entropy re-seeded to a constant
+ *          beforehand (so the bytes depend on the sid alone)                                                                    [client re-runs]
+ *   next=  outcome of that follow-up handshake against a new server session in the same child: established, resumed as seen by client and
+ *          server.  For this the OTHER endpoint of the scenario is replayed flight-at-a-time against its recorded input first, so that the
+ *          server's cache entry / the client's sid exist as after the recorded connection    [probe: scenarios with full payloads; all in thorough] */
+static uint64_t fnv(uint64_t h, const void *p, size_t n) { const unsigned char *b = p; for (size_t i = 0; i < n; i++) { h ^= b[i]; h *= 0x100000001b3ULL; } return h; }
+static uint64_t sid_digest(const sslSessionId_t *sid, char *brief, size_t cap)
+{
+    uint64_t h = 0xcbf29ce484222325ULL; int npsk = 0;
+    h = fnv(h, &sid->idLen, sizeof sid->idLen); h = fnv(h, sid->id, sid->idLen <= SSL_MAX_SESSION_ID_SIZE ? sid->idLen : SSL_MAX_SESSION_ID_SIZE);
+    h = fnv(h, sid->masterSecret, SSL_HS_MASTER_SIZE); h = fnv(h, &sid->cipherId, sizeof sid->cipherId);
+    h = fnv(h, &sid->sessionTicketState, sizeof sid->sessionTicketState); h = fnv(h, &sid->sessionTicketLen, sizeof sid->sessionTicketLen);
+    if (sid->sessionTicket && sid->sessionTicketLen > 0) h = fnv(h, sid->sessionTicket, sid->sessionTicketLen);
+    h = fnv(h, &sid->sessionTicketLifetimeHint, sizeof sid->sessionTicketLifetimeHint);
+    for (const psTls13Psk_t *k = sid->psk; k && npsk < 64; k = k->next, npsk++) {
+        h = fnv(h, &k->pskLen, sizeof k->pskLen); if (k->pskKey) h = fnv(h, k->pskKey, k->pskLen);
+        h = fnv(h, &k->pskIdLen, sizeof k->pskIdLen); if (k->pskId) h = fnv(h, k->pskId, k->pskIdLen);
+        h = fnv(h, &k->isResumptionPsk, sizeof k->isResumptionPsk);
+        if (k->params) { h = fnv(h, &k->params->cipherId, sizeof k->params->cipherId); h = fnv(h, &k->params->ticketAgeAdd, 4); h = fnv(h, &k->params->ticketLifetime, 4); h = fnv(h, &k->params->maxEarlyData, 4); h = fnv(h, &k->params->majVer, 1); h = fnv(h, &k->params->minVer, 1); }
+    }
+    snprintf(brief, cap, "id%d/c%04x/t%d.%d/p%d", (int) sid->idLen, (unsigned) sid->cipherId, (int) sid->sessionTicketLen, (int) sid->sessionTicketState, npsk);
+    return h;
+}
+static void left_behind(const alone_arg *a, drv_t *D, drv_t *O, sslSessionId_t *sid, int probe)
+{
+    const scn_t *s = a->s; trace_t *t = D->t; size_t n = 0, cap = sizeof t->left; t->left[0] = 0;
+    if (probe && O && O->e.ssl) { alone_arg oa = { s, !a->role, CH_FLIGHT, 0, 0 }; drive(O, &oa); }
+    mx_ep_free(&D->e); if (O) mx_ep_free(&O->e);     /* the server's cache entry gets its master secret when the session is deleted */
+    if (a->role == MX_CLIENT) { char b[64]; uint64_t h = sid_digest(sid, b, sizeof b); n += snprintf(t->left + n, cap - n, "sid=%s:%016llx ", b, (unsigned long long) h); }
+    if (a->role != MX_CLIENT && !probe) return;
+    mx_entropy_seed(0xc18f0110a5ULL);
+    mx_cfg c = scn_cfg(s); mx_ep S2, C2; unsigned char *b = NULL;
+    if (mx_new_server(&S2, &c) < 0 || mx_new_client(&C2, &c, sid) < 0) { snprintf(t->left + n, cap - n, "next=open-failed"); return; }
+    int fl = mx_take(&C2, &b);
+    if (a->role == MX_CLIENT) n += snprintf(t->left + n, cap - n, "ch=%d:%016llx ", fl, (unsigned long long) fnv(0xcbf29ce484222325ULL, b, fl > 0 ? fl : 0));
+    if (probe) {
+        if (fl > 0) mx_feed(&S2, b, fl);
+        mx_pump(&S2, &C2);   /* arguments are (first taker, second taker): the server answers first */
+        n += snprintf(t->left + n, cap - n, "next=est%d/cres%d/sres%d", mx_both_done(&C2, &S2), C2.ssl ? (int) matrixSslIsResumedSession(C2.ssl) : -1, S2.ssl ? (int) matrixSslIsResumedSession(S2.ssl) : -1);
+    }
+    free(b); mx_ep_free(&C2); mx_ep_free(&S2);
+}
+static int probe_wanted(const scn_t *s) { return vf_thorough || !s->light; }
+
+static void alone_run(void *a_)
+{
+    alone_arg *a = a_; const scn_t *s = a->s; sslSessionId_t *sid; matrixSslNewSessionId(&sid, NULL);
+    static drv_t D; trace_t *t = &SH->alone;
+    if (s->resumed) prime(s, sid);
+    /* keep object creation order identical to the recording run (server first) so that entropy draws line up */
+    static drv_t other; static trace_t ot; int probe = probe_wanted(s);
+    memset(&other, 0, sizeof other);
+    if (a->role == MX_SERVER) { if (drv_open(&D, s, MX_SERVER, NULL, t) < 0) return; if (probe && drv_open(&other, s, MX_CLIENT, sid, &ot) < 0) return; }
+    else { if (drv_open(&other, s, MX_SERVER, NULL, &ot) < 0) return; if (drv_open(&D, s, MX_CLIENT, sid, t) < 0) return; }
+    drive(&D, a);
+    left_behind(a, &D, &other, sid, probe);
     SH->ok = 1;
 }
 
@@ -509,7 +575,7 @@ int main(int argc, char **argv)
                 trace_t *t = &SH->alone; char e1[700], e2[700]; evstr(&ref, e1, sizeof e1); evstr(t, e2, sizeof e2);
                 vf_distinct("%s|%d|%d|%d|%d", sname, role, a->kind, a->arg, a->partial);
                 if (vi == 4 || vi == 16) vf_sample("%s %s chunking=%s(%d) partial=%d: %d bytes in, %d out, events %s", sname, role ? "server" : "client", chunk_class(a), a->arg, a->partial, t->fed, t->outlen, e2);
-                if (vf_verbose) { fprintf(stderr, "REF  events %s out=%d got=%d reqclose=%d\nTHIS events %s out=%d got=%d reqclose=%d stuck=%d\n", e1, ref.outlen, ref.gotlen, ref.reqclose_on_send, e2, t->outlen, t->gotlen, t->reqclose_on_send, t->stuck);
+                if (vf_verbose) { fprintf(stderr, "REF  events %s out=%d got=%d reqclose=%d left [%s]\nTHIS events %s out=%d got=%d reqclose=%d stuck=%d left [%s]\n", e1, ref.outlen, ref.gotlen, ref.reqclose_on_send, ref.left, e2, t->outlen, t->gotlen, t->reqclose_on_send, t->stuck, t->left);
                     int d0 = 0; while (d0 < t->outlen && d0 < ref.outlen && t->out[d0] == ref.out[d0]) d0++; fprintf(stderr, "first diff at %d; this tail:", d0); for (int i = d0; i < t->outlen && i < d0 + 40; i++) fprintf(stderr, " %02x", t->out[i]); fprintf(stderr, "\n"); }
                 if (strcmp(e1, e2)) report(s, a, "events-differ", desc, "events [%s] vs reference [%s]", e2, e1);
                 /* Which call carries MATRIXSSL_HANDSHAKE_COMPLETE legitimately depends on coalescing (application data in the same
@@ -519,6 +585,7 @@ int main(int argc, char **argv)
                 else if (t->gotlen != ref.gotlen || memcmp(t->got, ref.got, ref.gotlen)) report(s, a, "delivered-data-differs", desc, "delivered %d bytes vs reference %d", t->gotlen, ref.gotlen);
                 else if (t->outlen != ref.outlen || memcmp(t->out, ref.out, ref.outlen)) { int d = 0; while (d < t->outlen && d < ref.outlen && t->out[d] == ref.out[d]) d++; report(s, a, "output-differs", desc, "emitted %d bytes vs reference %d, first difference at offset %d", t->outlen, ref.outlen, d); }
                 else if (t->stuck) report(s, a, "output-differs", desc, "endpoint stopped emitting before the reference did (stuck at input offset %d)", t->fed);
+                else if (strcmp(t->left, ref.left)) report(s, a, "state-left-behind-differs", desc, "after the same stream: [%s] vs reference [%s]", t->left, ref.left);
                 else { vf_stat("traces_equal", 1); if (t->hsc_recv + t->hsc_send != ref.hsc_recv + ref.hsc_send) vf_stat("completion_code_coalesced_with_appdata", 1); }
             }
         }
